@@ -361,13 +361,36 @@ pub fn visible_importables_in_crate<'db>(
 }
 
 /// Query implementation of [LspHelpers::visible_importables_in_crate].
-#[salsa::tracked(returns(clone))]
+#[salsa::tracked(returns(clone), cycle_fn=visible_importables_in_crate_cycle, cycle_initial=visible_importables_in_crate_initial)]
 pub fn visible_importables_in_crate_tracked<'db>(
     db: &'db dyn Database,
     crate_id: CrateId<'db>,
     user_module_id: ModuleId<'db>,
 ) -> Arc<Vec<(ImportableId<'db>, String)>> {
     visible_importables_in_crate(db, crate_id, user_module_id)
+}
+
+/// Cycle handling for [visible_importables_in_crate_tracked].
+fn visible_importables_in_crate_cycle<'db>(
+    _db: &'db dyn Database,
+    _cycle: &salsa::Cycle<'_>,
+    last_provisional_value: &Arc<Vec<(ImportableId<'db>, String)>>,
+    _value: Arc<Vec<(ImportableId<'db>, String)>>,
+    _crate_id: CrateId<'db>,
+    _user_module_id: ModuleId<'db>,
+) -> Arc<Vec<(ImportableId<'db>, String)>> {
+    // The list only feeds import suggestions: inside a cycle it stays at its initial (empty)
+    // value instead of being iterated.
+    last_provisional_value.clone()
+}
+/// Cycle handling for [visible_importables_in_crate_tracked].
+fn visible_importables_in_crate_initial<'db>(
+    _db: &'db dyn Database,
+    _id: salsa::Id,
+    _crate_id: CrateId<'db>,
+    _user_module_id: ModuleId<'db>,
+) -> Arc<Vec<(ImportableId<'db>, String)>> {
+    Default::default()
 }
 
 /// Implementation of [LspHelpers::visible_importables_from_module].
